@@ -77,6 +77,7 @@ type Recorder struct {
 	deadline time.Time
 	cut      bool
 	maxViol  int
+	single   bool
 	sigCount map[string]int
 }
 
@@ -149,7 +150,19 @@ func hash64(s string) uint64 {
 func Hash64(s string) uint64 { return hash64(s) }
 
 // Shard returns this process's shard index and the number of shards.
-func (r *Recorder) Shard() (int, int) { return r.res.Shard, r.res.Shards }
+func (r *Recorder) Shard() (int, int) {
+	if r.single {
+		return 0, 1
+	}
+	return r.res.Shard, r.res.Shards
+}
+
+// Single makes Shard report (0,1) from now on: for harnesses that hand whole
+// scenarios to shards and do not want the explorer to split them further.
+func Single(r *Recorder) *Recorder {
+	r.single = true
+	return r
+}
 
 // Replaying reports whether a single case is being replayed.
 func (r *Recorder) Replaying() bool { return r.replay != "" }
